@@ -5,7 +5,7 @@ LANES=${1:-2}
 export VCODE=/tmp/vsnap_benign; rm -rf $VCODE; mkdir -p $VCODE
 rsync -a --exclude .git --exclude .cache --exclude seeded --exclude benign --exclude evidence --exclude reports /verif/ $VCODE/
 ln -s /verif/.cache $VCODE/.cache
-ls /verif/benign/R*/r*.diff > /tmp/benign_list
+ls ${BENIGN_GLOB:-/verif/benign/R*/r*.diff} > /tmp/benign_list
 run_lane() {
   lane=$1; export SCRATCH_WT=/tmp/wt/BL$lane; i=0
   while read p; do
